@@ -58,6 +58,10 @@ def _all_combos():
             for outcome in OUTCOMES:
                 for crc in (0, 1, 2):
                     out.append(dict(mask=mask, report_to=report_to, outcome=outcome, crc=crc))
+    # the same with a route towards the report-to endpoint whose MTU is smaller than a status report (the report is fragmented)
+    for mask in (1, 4, 8, 15, 31):
+        for outcome in OUTCOMES:
+            out.append(dict(mask=mask, report_to='dtn://rep/r', outcome=outcome, crc=(mask % 3), report_mtu=True))
     return out
 
 
@@ -117,7 +121,8 @@ def check_combo(combo, bundle, obs):
     enc = bpv7.encode(bundle)
     node = bh.BpNode(sim, NODE, rx_routes=[(r'dtn://me/.*', 'deliver'), (r'dtn://fwd/.*', 'forward'), (r'dtn://frag/.*', 'forward'),
                                            (r'dtn://del/.*', 'delete'), (r'dtn://lost/.*', 'forward'), (r'dtn://tiny/.*', 'forward')],
-                     tx_routes=[dict(pattern=r'dtn://frag/.*', mtu=max(120, len(enc) - 150), raw={'r': 'frag'}),
+                     tx_routes=([dict(pattern=r'dtn://rep/.*', mtu=80, raw={'r': 'rep-small'})] if combo.get('report_mtu') else []) +
+                     [dict(pattern=r'dtn://frag/.*', mtu=max(120, len(enc) - 150), raw={'r': 'frag'}),
                                 dict(pattern=r'dtn://tiny/.*', mtu=40, raw={'r': 'tiny'}),
                                 dict(pattern=r'(?!dtn://lost/).*', raw={'r': 'any'})])
     problems = []
@@ -143,6 +148,35 @@ def check_combo(combo, bundle, obs):
             reports.append((dec, probs, data))
         else:
             others.append((dec, probs))
+    # a report that itself had to be fragmented on its way out (small MTU towards the report-to endpoint): put it together again;
+    # every octet of it must have left exactly once
+    frag_reports = [item for item in reports if item[0]['primary']['flags'] & bpv7.FLAG_IS_FRAGMENT]
+    if frag_reports:
+        reports = [item for item in reports if not item[0]['primary']['flags'] & bpv7.FLAG_IS_FRAGMENT]
+        groups = {}
+        for (dec, probs, data) in frag_reports:
+            groups.setdefault(bpv7.ident(dec)[:3], []).append((dec, probs, data))
+        for ident, items in groups.items():
+            total = items[0][0]['primary']['total_adu_len']
+            buf = bytearray(total)
+            covered = set()
+            for (dec, probs, _data) in items:
+                off = dec['primary']['frag_offset']
+                pay = bpv7.payload_of(dec)['data']
+                span = set(range(off, off + len(pay)))
+                if span & covered:
+                    problems.append(('count', 'octets [%d,%d) of a fragmented status report were transmitted more than once (%d fragment bundles for one report)' % (
+                        off, off + len(pay), len(items))))
+                    break
+                covered |= span
+                buf[off:off + len(pay)] = pay
+            if covered == set(range(total)):
+                obs['fragmented_reports_reassembled'] = obs.get('fragmented_reports_reassembled', 0) + 1
+                whole = dict(primary=dict(items[0][0]['primary'], flags=items[0][0]['primary']['flags'] & ~bpv7.FLAG_IS_FRAGMENT, frag_offset=None, total_adu_len=None),
+                             blocks=[dict(bpv7.payload_of(items[0][0]), data=bytes(buf))])
+                reports.append((whole, [], b''))
+            elif not any(kind == 'count' for (kind, _t) in problems):
+                problems.append(('malformed', 'fragments of a status report cover %d of %d octets' % (len(covered), total)))
     want, asserted, want_time = expected(combo)
     obs['combinations'] += 1
     loose = combo['outcome'] in ('no-route', 'duplicate')
